@@ -28,14 +28,35 @@ func rgswEvaluatorTarget() *Target {
 			base2 = 16
 		}
 		ct := rgsw.NewCiphertext(e.RLWE, e.MaxLevel()+dl, e.RLWE.MaxLevelP(), base2)
-		FillObject(ct, FillPattern) // residues < 2^28 < every modulus: a well-formed (if meaningless) RGSW ciphertext
+		// independent pseudo-random residues modulo every q_i and p_j. (Identical small words in the Q and
+		// the P rows would denote a small integer mod QP: the product divided by P is then identically
+		// zero and the row would compare zeros with zeros.)
+		g := NewGen("rgsw", e.Name, label)
+		rqp := e.RLWE.RingQP()
+		for k := range ct.Value {
+			for i := range ct.Value[k].Value {
+				for j := range ct.Value[k].Value[i] {
+					for c := range ct.Value[k].Value[i][j] {
+						g.FillPolyQP(rqp, ct.Value[k].Value[i][j][c])
+					}
+				}
+			}
+		}
 		return ct
 	}
+	// the number of special primes selects the code path (levelP >= 1: multiple-P product; levelP == 0:
+	// single P with optional bit decomposition), so it is part of the operand class
+	classOf := func(e *Env) string {
+		if e.RLWE.PCount() >= 2 {
+			return "ct-rgsw/2P"
+		}
+		return "ct-rgsw/1P"
+	}
 	kinds := []Kind{
-		{Name: "ct1,rgsw", Class: "ct-rgsw", Names: []string{"op0", "op1"}, Make: func(e *Env, g *Gen) []interface{} {
+		{Name: "ct1,rgsw", Class: "ct-rgsw", ClassOf: classOf, Names: []string{"op0", "op1"}, Make: func(e *Env, g *Gen) []interface{} {
 			return []interface{}{g.Ct(e, 1, e.MaxLevel()), mkRGSW(e, "a", 0)}
 		}},
-		{Name: "ct1,rgsw/level", Class: "ct-rgsw", Names: []string{"op0", "op1"}, Make: func(e *Env, g *Gen) []interface{} {
+		{Name: "ct1,rgsw/level", Class: "ct-rgsw", ClassOf: classOf, Names: []string{"op0", "op1"}, Make: func(e *Env, g *Gen) []interface{} {
 			return []interface{}{g.Ct(e, 1, e.MaxLevel()-1), mkRGSW(e, "b", -1)}
 		}},
 	}
@@ -109,6 +130,28 @@ func sortInts(a []int) {
 	}
 }
 
+// noJ0Diags returns a diagonal set whose BSGS decomposition (for the given log ratio) has no giant step
+// j = 0, i.e. no non-zero diagonal with index in [0, N1): the accumulator of MultiplyByDiagMatrixBSGS is
+// then initialised by a giant step j != 0 (a code path of its own).
+func noJ0Diags(e *Env, logRatio int, which int) []int {
+	cols := 1 << logDims(e).Cols
+	cands := [][]int{{5}, {cols - 1, cols - 2, cols - 3, cols - 4}, {6, 7}, {3}, {cols - 1}, {4, 5, 6, 7}}
+	var ok [][]int
+	for _, d := range cands {
+		n1 := lintrans.FindBestBSGSRatio(d, cols, logRatio)
+		if n1 < 1 {
+			continue
+		}
+		if idx, _, _ := lintrans.BSGSIndex(d, cols, n1); idx[0] == nil && len(idx) > 0 {
+			ok = append(ok, d)
+		}
+	}
+	if len(ok) == 0 {
+		panic("optable: no diagonal set without giant step 0")
+	}
+	return ok[which%len(ok)]
+}
+
 func lintransEvaluatorTarget() *Target {
 	type E = *lintrans.Evaluator
 	diagsA, diagsB := []int{0, 1, 2, 5}, []int{0, 3, -1}
@@ -143,6 +186,9 @@ func lintransEvaluatorTarget() *Target {
 				}},
 				{Name: "ct1/level,[naive,bsgs]", Class: "ct", Names: []string{"ctIn", "linearTransformations"}, Make: func(e *Env, g *Gen) []interface{} {
 					return []interface{}{g.Ct(e, 1, e.MaxLevel()-1), []lintrans.LinearTransformation{mkLT(e, g, diagsA, e.MaxLevel()-1, -1), mkLT(e, g, diagsB, e.MaxLevel()-1, 1)}}
+				}},
+				{Name: "ct1,[bsgs/no-j0,bsgs/no-j0]", Class: "ct", Names: []string{"ctIn", "linearTransformations"}, Make: func(e *Env, g *Gen) []interface{} {
+					return []interface{}{g.Ct(e, 1, e.MaxLevel()), []lintrans.LinearTransformation{mkLT(e, g, noJ0Diags(e, 0, 0), e.MaxLevel(), 0), mkLT(e, g, noJ0Diags(e, 1, 1), e.MaxLevel(), 1)}}
 				}}},
 			Out: ctOutLT(2),
 			Call: func(rcv interface{}, in []interface{}, o interface{}) (interface{}, error) {
@@ -151,6 +197,8 @@ func lintransEvaluatorTarget() *Target {
 		{Method: "EvaluateSequential", Doc: "evaluates opOut = M_n(...M_1(M_0(ctIn))), rescaling after each transformation",
 			Kinds: []Kind{{Name: "ct1,[bsgs,naive]", Class: "ct", Names: []string{"ctIn", "linearTransformations"}, Make: func(e *Env, g *Gen) []interface{} {
 				return []interface{}{g.Ct(e, 1, e.MaxLevel()), []lintrans.LinearTransformation{mkLT(e, g, diagsA, e.MaxLevel(), 0), mkLT(e, g, diagsB, e.MaxLevel()-1, -1)}}
+			}}, {Name: "ct1,[bsgs/no-j0,bsgs/no-j0]", Class: "ct", Names: []string{"ctIn", "linearTransformations"}, Make: func(e *Env, g *Gen) []interface{} {
+				return []interface{}{g.Ct(e, 1, e.MaxLevel()), []lintrans.LinearTransformation{mkLT(e, g, noJ0Diags(e, 0, 1), e.MaxLevel(), 0), mkLT(e, g, noJ0Diags(e, 0, 0), e.MaxLevel()-1, 0)}}
 			}}},
 			Out: &OutSpec{Shapes: []Shape{ShapeDirtyWords, ShapeDirtyMeta, ShapeLargerDegree}, New: func(e *Env, in []interface{}, dDeg, dLvl int) interface{} {
 				return e.NewCt(1+dDeg, e.MaxLevel()+dLvl)
@@ -168,17 +216,27 @@ func lintransEvaluatorTarget() *Target {
 				return o, rcv.(E).MultiplyByDiagMatrix(asCt(in[0]), in[1].(lintrans.LinearTransformation), in[2].([]ringqp.Poly), asCt(o))
 			}},
 		{Method: "MultiplyByDiagMatrixBSGS", Doc: "multiplies the Ciphertext ctIn by the plaintext matrix (BSGS) using the pre-rotated ciphertexts ctInPreRot, result on opOut",
-			Kinds: []Kind{{Name: "ct1,bsgs,prerot", Class: "ct", Names: []string{"ctIn", "matrix", "ctInPreRot"}, Make: func(e *Env, g *Gen) []interface{} {
-				ct := g.Ct(e, 1, e.MaxLevel())
-				lt := mkLT(e, g, diagsA, e.MaxLevel(), 0)
-				_, _, rotN2 := lt.BSGSIndex()
-				pre := map[int]*rlwe.Element[ringqp.Poly]{}
-				ev := &lintrans.Evaluator{Evaluator: schemeEvaluator(e)}
-				if err := ev.PreRotatedCiphertextForDiagonalMatrixMultiplication(ct.Level(), e.RLWE.MaxLevelP(), ct, decompOf(e, ct), rotN2, pre); err != nil {
-					panic(err)
+			Kinds: func() []Kind {
+				mk := func(name string, diags func(e *Env) []int, ratio int) Kind {
+					return Kind{Name: name, Class: "ct", Names: []string{"ctIn", "matrix", "ctInPreRot"}, Make: func(e *Env, g *Gen) []interface{} {
+						ct := g.Ct(e, 1, e.MaxLevel())
+						lt := mkLT(e, g, diags(e), e.MaxLevel(), ratio)
+						_, _, rotN2 := lt.BSGSIndex()
+						pre := map[int]*rlwe.Element[ringqp.Poly]{}
+						ev := &lintrans.Evaluator{Evaluator: schemeEvaluator(e)}
+						if err := ev.PreRotatedCiphertextForDiagonalMatrixMultiplication(ct.Level(), e.RLWE.MaxLevelP(), ct, decompOf(e, ct), rotN2, pre); err != nil {
+							panic(err)
+						}
+						return []interface{}{ct, lt, pre}
+					}}
 				}
-				return []interface{}{ct, lt, pre}
-			}}},
+				return []Kind{
+					mk("ct1,bsgs,prerot", func(*Env) []int { return diagsA }, 0),
+					// no non-zero diagonal in [0, N1): the first giant step is not j = 0
+					mk("ct1,bsgs/no-j0/shift,prerot", func(e *Env) []int { return noJ0Diags(e, 0, 0) }, 0),
+					mk("ct1,bsgs/no-j0/band,prerot", func(e *Env) []int { return noJ0Diags(e, 1, 1) }, 1),
+				}
+			}(),
 			Out: ctOutLT(0),
 			Call: func(rcv interface{}, in []interface{}, o interface{}) (interface{}, error) {
 				return o, rcv.(E).MultiplyByDiagMatrixBSGS(asCt(in[0]), in[1].(lintrans.LinearTransformation), in[2].(map[int]*rlwe.Element[ringqp.Poly]), asCt(o))
